@@ -224,6 +224,7 @@ impl StateCheck for C04 {
                     Some((rbal, rep)) => {
                         let mag = subj::magnitude(&comps, f);
                         let d = cmp_flat(rbal, &bal, subj::tol(mag) * 0.05, 2e-6, &|_| false, &|_, x| x);
+                        let rt = 1e-4 + 2.0 * subj::tol(mag) / (rep.balance.we.b.tot().abs() as f64).max(1e-30);
                         out.compared += 1;
                         if !d.is_empty() {
                             let (a, b) = show(&d);
@@ -234,7 +235,7 @@ impl StateCheck for C04 {
                             if n != "k_exp" && !ratios {
                                 continue;
                             }
-                            if !close(a as f64, b as f64, 1e-4 * (a.abs() as f64).max(1.0)) {
+                            if !close(a as f64, b as f64, (if n == "k_exp" { 1e-6 } else { rt }) * (a.abs() as f64).max(1.0)) {
                                 out.viol("area_changes_ratio", &[], &cfg, format!("{n}={b}"), format!("{a}"));
                             }
                         }
